@@ -268,7 +268,7 @@ def _charge_comments(rep, carrier, spec, got_c, want_c):
     ONE header line the writer itself puts in front of the rows is not a comment of the file)."""
     if got_c == want_c:
         return
-    if header_like_of(got_c) != header_like_of(want_c):
+    if not _is_subsequence(header_like_of(want_c), header_like_of(got_c)):  # one of them did not come back
         rep.add("parse_swc", HEADER_LIKE, spec, got_c, want_c)
     if not _is_subsequence(want_c, got_c):
         rep.add(carrier, "comments-in-order", spec, got_c, want_c)
@@ -342,7 +342,7 @@ def check_history(rep, spec, base):
                 break
         got_c = [c.lstrip() for c in t2.comments]
         if got_c != want_c:
-            if header_like_of(got_c) != header_like_of(want_c):
+            if not _is_subsequence(header_like_of(want_c), header_like_of(got_c)):  # one of them did not come back
                 rep.add("parse_swc", HEADER_LIKE, spec, got_c, want_c)
             rep.add("Tree.from_swc", f"history/{gen}/comments-are-the-source-header-of-this-export-then-every-comment-the-written-tree-carried", spec, got_c, want_c)
         t = t2
